@@ -4,7 +4,7 @@
 From Coq Require Import ZArith List Bool PeanoNat Lia.
 From FT Require Import Model.Base Model.C08Split Model.C10Model Proofs.C10ModelP.
 Import ListNotations.
-Local Open Scope nat_scope.
+Local Open Scope N_scope.
 
 (* ---------- splits *)
 Lemma untag_lo lo dummy es x : lo_ok lo dummy -> lo_es lo es -> lo_ok lo (snd (untag dummy es x)).
@@ -132,7 +132,7 @@ Proof.
   unfold unflatten_l. destruct t as [b v | f a es]; [discriminate|].
   intros H Hle Ht. apply lo_es_sub in Ht.
   destruct es as [| e es0] eqn:Ees; [discriminate|]. rewrite <- Ees in *.
-  destruct (forallb (fun ct : list Z * lt => 2 <=? length (fst ct)) es); [|discriminate].
+  destruct (forallb (fun ct : list Z * lt => Nat.leb 2 (length (fst ct))) es); [|discriminate].
   destruct (mk_groups (leaf_level es) (unflat_groups es None) nx) as [lows n1] eqn:E.
   apply mk_groups_lo with (lo := lo) in E; [| exact Hle |].
   - destruct E as [Hl Hn]. assert (E2 : mk_fiber n1 true lows = (t', n')) by congruence. clear H.
@@ -231,7 +231,7 @@ Lemma from_fiber_lo lo n root nx s n' :
   from_fiber n root nx = (s, n') -> lo <= nx -> lo_ok lo root -> lo_snap lo s /\ nx <= n'.
 Proof.
   unfold from_fiber. intros H Hle Hroot. inversion H; subst; clear H. split; [|lia].
-  set (root' := reown (map (fun k => nx + 3 * k) (seq 0 n)) root).
+  set (root' := reown (map (fun k => nx + 3 * N.of_nat k) (seq 0%nat n)) root).
   assert (lo_ok lo root') as Hr'.
   { apply reown_lo; [exact Hroot|]. intros r Hr. apply in_map_iff in Hr. destruct Hr as [k [<- _]]. lia. }
   intros l Hl. unfold snap_labels in Hl. cbn in Hl. apply in_app_or in Hl. destruct Hl as [Hl | Hl].
@@ -241,7 +241,7 @@ Proof.
     cbn [r_lab r_attrs r_def r_fibers] in Hl.
     destruct Hl as [<- | [<- | Hl]]; [lia | lia |].
     apply in_app_or in Hl. destruct Hl as [Hl | Hl].
-    + destruct (S k =? n); cbn [olab] in Hl; [destruct Hl as [<- | []]; lia | destruct Hl].
+    + destruct (Nat.eqb (S k) n); cbn [olab] in Hl; [destruct Hl as [<- | []]; lia | destruct Hl].
     + apply Hr'. eapply fibs_at_in. exact Hl.
 Qed.
 
@@ -271,7 +271,7 @@ Proof.
   assert (lo_es lo (map (fun ct => (fst ct, upd_fiber f0 g (snd ct))) es)) as H.
   { apply lo_es_iff. intros ct Hin. apply in_map_iff in Hin. destruct Hin as [ct0 [<- Hin0]]. cbn.
     rewrite Forall_forall in IH. apply IH; [exact Hin0|]. apply (proj1 (lo_es_iff lo es) Hes _ Hin0). }
-  destruct (f =? f0); [apply Hg; exact H | exact H].
+  destruct (N.eqb f f0); [apply Hg; exact H | exact H].
 Qed.
 
 Lemma upd_pay_es_lo lo d k base es : lo <= base -> lo_es lo es -> lo_es lo (upd_pay_es d k base es).
@@ -283,7 +283,7 @@ Proof.
   destruct (v =? d)%Z; [exact H0|]. cbn. intros l [<- | []]. lia.
 Qed.
 
-Definition upd_rel (lo : nat) (fs : list nat) (t t' : lt) : Prop :=
+Definition upd_rel (lo : N) (fs : list N) (t t' : lt) : Prop :=
   (lo_ok lo t -> lo_ok lo t') /\ ((forall f, In f fs -> ~ In f (labels t)) -> t' = t).
 
 Lemma upd_pay_world_rel lo d k fs : forall w nx w' n',
